@@ -56,7 +56,7 @@ def replay_row(comp, interior):
         from . import c02_concrete
         m = d.get('model', {}).get('_index_model', {})
         shape = tuple(max(2, min(6, int(m.get(k, 3)))) for k in ('nx', 'ny', 'nz'))
-        return c02_concrete.check_amat_x(shapes=[shape, (3, 4, 5)], seeds=(0, 1), want_rows=(comp, interior))
+        return ob.guarded(c02_concrete.check_amat_x, shapes=[shape, (3, 4, 5)], seeds=(0, 1), want_rows=(comp, interior))
     return rp
 
 
@@ -211,7 +211,7 @@ def task_concrete():
     tier = os.environ.get('VERIF_TIER', 'quick')
     shapes = [(2, 2, 2), (2, 3, 4), (3, 2, 5), (4, 4, 3)] if tier == 'quick' else \
         list(itertools.product((2, 3, 4, 5), repeat=3))
-    r = c02_concrete.check_amat_x(shapes=shapes, seeds=(seed, seed + 1))
+    r = ob.guarded(c02_concrete.check_amat_x, shapes=shapes, seeds=(seed, seed + 1))
     col.concrete('contract_on_real_function_pyfunc_and_jit', r['reproduced'] is False, r,
                  bounded=f'shapes {shapes[0]}..{shapes[-1]} ({len(shapes)} shapes) x 2 seeds x real/complex; jit vs py_func vs spec, rel tol 1e-9',
                  cases=r['cases'])
